@@ -748,6 +748,9 @@ class Executor(Evaluator):
         if isinstance(ty, TTuple):
             items = tuple_items(v)
             def get(k, h, items=items):
+                kk = z3.simplify(k) if not isinstance(k, int) else z3.IntVal(k)
+                if z3.is_int_value(kk) and 0 <= kk.as_long() < len(items):
+                    return items[kk.as_long()]
                 res = items[-1]
                 for j in range(len(items) - 2, -1, -1):
                     res = ite(k == j, items[j], res)
@@ -765,6 +768,9 @@ class Executor(Evaluator):
         kind, n, get = desc[:3]
         seqsv = desc[3] if len(desc) > 3 else None
         k_loop, lp = self.loop_spec(node)
+        nn = z3.simplify(n)
+        if lp is None and z3.is_int_value(nn) and nn.as_long() <= 8:
+            return self.unroll_for(node, st, nn.as_long(), get)
         itname = '_it%d' % (k_loop if k_loop is not None else 0)
         nname = '_n%d' % (k_loop or 0)
         st = st.copy()
@@ -794,6 +800,27 @@ class Executor(Evaluator):
             return res
         node._extra_assigned = [node.target]
         return self.generic_loop(node, st, head, [itname])
+
+    def unroll_for(self, node, st, count, get):
+        """a loop over a sequence of known, small length and without invariant is executed iteration by iteration"""
+        outs = []
+        live = [st]
+        for k in range(count):
+            nxt = []
+            for s in live:
+                val = get(z3.IntVal(k), s.heap)
+                s = self.drain(s)
+                for s2 in self.assign(node.target, val, s):
+                    for o in self.ex_block(node.body, s2):
+                        if o.kind in ('normal', 'continue'):
+                            nxt.append(o.st)
+                        elif o.kind == 'break':
+                            outs.append(Outcome('normal', o.st))
+                        else:
+                            outs.append(o)
+            live = nxt
+        outs += [Outcome('normal', s) for s in live]
+        return outs
 
     # ------------------------------------------------------------ calls
     def ev_Call(self, e, st):
@@ -903,6 +930,13 @@ class Executor(Evaluator):
             if c is None:
                 raise Unsupported('call to %s which has no contract' % repo.qualname_of(target))
             bound = self.bind_args(target, recv, args, kwargs)
+            if getattr(c, 'fold_flag', False) and all(isinstance(v.py, (str, int, bool)) for v in bound.values()):
+                # pure helper on concrete arguments: constant folding through the real function
+                try:
+                    out.append((s, self.lift_const(target(*[v.py for v in bound.values()]))))
+                    continue
+                except Exception:
+                    pass
             # an Optional argument for a non-Optional parameter: the None case is outside the callee's contract
             try:
                 pt = self.W.param_types(target, c)
